@@ -41,6 +41,7 @@ func c07Rows(cfg vfCfg) []uint64 {
 func TestVerifC07(t *testing.T) {
 	r := vk.Start(t, "C07")
 	defer r.Finish()
+	defer vfScratchCleanup()
 	chk := vfChecks{Reads: true, Changed: true}
 
 	for _, k := range []string{"setBit", "clearBit", "setRow", "clearRow", "bulkImport/set", "bulkImport/clear", "setValue", "importValue",
@@ -96,7 +97,7 @@ func TestVerifC07(t *testing.T) {
 		}
 	})
 
-	n := r.N(3000, 400000)
+	n := r.N(6000, 400000)
 	r.Cases("hist", n, func(i int, id string, rng *vk.Rand) {
 		cfg := vfGenCfg(rng, []string{"set", "set", "int", "int", "mutex", "bool"}, []string{CacheTypeRanked, CacheTypeLRU, CacheTypeNone}, 4)
 		g := newVFGen(rng.Fork(), cfg, c07Rows(cfg), c07Weights)
